@@ -188,6 +188,16 @@ def h_missing_attempt(E, kind):
     if kind == 'single':
         g = TG(answers='e0', attempt_based_credit=LinearCredit())
         call = lambda: g(None, 's0')   # noqa
+    elif kind == 'single-inferred-answer':
+        g = TG(attempt_based_credit=LinearCredit())
+        call = lambda: g('e0', 's0')   # noqa  (the answer arrives through the call's expect argument)
+    elif kind == 'string-inferred-answer':
+        from mitxgraders import StringGrader
+        g = StringGrader(attempt_based_credit=LinearCredit())
+        call = lambda: g('cat', 'cat')   # noqa
+    elif kind == 'attempt-None':
+        g = TG(answers='e0', attempt_based_credit=LinearCredit())
+        call = lambda: g(None, 's0', attempt=None)   # noqa
     else:
         g = ListGrader(answers=['e0', 'e1'], subgraders=TG(), attempt_based_credit=LinearCredit())
         call = lambda: g(None, ['s0', 's1'])   # noqa
@@ -241,7 +251,7 @@ def harnesses(tier):
     add(h_apply_list, 'apply_list', dict(credit=2, n=3, ordered=True), 'symbolic grades in [0,1], attempt in [-2,5]')
     for ci in (1, 2):
         add(h_apply_list, 'apply_list', dict(credit=ci, n=2, ordered=True, debug=True), 'debug log switched on: the note survives next to the log')
-    for kind in ('single', 'list'):
+    for kind in ('single', 'list', 'single-inferred-answer', 'string-inferred-answer', 'attempt-None'):
         add(h_missing_attempt, 'missing_attempt', dict(kind=kind), 'no attempt passed')
     for sn in ('linear', 'geometric', 'reciprocal'):
         for att in (1, 2, 3, 4, 5, 9, 0, -4):
